@@ -21,6 +21,7 @@ use serde_json::{json, Value};
 pub mod copyrec;
 pub mod csdump;
 pub mod family;
+pub mod fixedrec;
 pub mod recording;
 pub mod shape;
 
